@@ -173,3 +173,13 @@ Theorem C14_window_exact_refuted :
   In (5, W "A/b") (fst (yield_channel fixed false None (Some 5) false exD_dups)).
 Proof. exact legacy_endtime_refuted. Qed.
 Print Assumptions C14_window_exact_refuted.
+
+(* ---- T14: the hand model of _decorated_list_slice IS the code regenerated from list_drf.py:
+   the model's (dec_list[:ks], dec_list[ks:ke]) are cut at the indices the regenerated function returns *)
+From DRF Require Import Model.ListSliceBase Gen.ListSliceGen Proofs.ListSliceGenProofs.
+Theorem C14_slice_is_the_regenerated_code : forall (A : Type) (time : A -> Z) l st en ffill,
+  slice fixed time l st en ffill = cut l (gen_decorated_list_slice (map time l) st en ffill)
+  /\ (fst (gen_decorated_list_slice (map time l) st en ffill) <= snd (gen_decorated_list_slice (map time l) st en ffill)
+      <= length l)%nat.
+Proof. exact @decorated_list_slice_regen. Qed.
+Print Assumptions C14_slice_is_the_regenerated_code.
